@@ -4,6 +4,7 @@
 //! `v1::invoke_*` / `resume_receive` with a stub of the chain scheduler.
 mod mhost;
 mod progen;
+mod v1sim;
 mod wasm;
 
 use mhost::{MFocus, MPlan};
@@ -29,6 +30,23 @@ impl Scenario for MScenario {
     fn shrink(&self, plan: &MPlan) -> Vec<MPlan> { mhost::shrink(plan) }
 }
 
+struct VScenario {
+    name:  &'static str,
+    focus: v1sim::VFocus,
+}
+
+impl Scenario for VScenario {
+    type Plan = v1sim::VPlan;
+
+    fn name(&self) -> &'static str { self.name }
+
+    fn generate(&self, rng: &mut Rng, tier: Tier) -> v1sim::VPlan { v1sim::generate(rng, tier, self.focus) }
+
+    fn execute(&self, plan: &v1sim::VPlan, rec: &mut Recorder) -> Option<Violation> { v1sim::execute(plan, rec) }
+
+    fn shrink(&self, plan: &v1sim::VPlan) -> Vec<v1sim::VPlan> { v1sim::shrink(plan) }
+}
+
 fn main() {
     let mut ctx = Ctx::from_args("chainsim");
     let prop = ctx.property.clone();
@@ -40,6 +58,12 @@ fn main() {
             };
             let n = ctx.count(1_200_000, 40_000_000);
             ctx.run_batch(&sc, n);
+            let vs = VScenario {
+                name:  "chain-resume",
+                focus: v1sim::VFocus::Resume,
+            };
+            let n = ctx.count(150_000, 5_000_000);
+            ctx.run_batch(&vs, n);
             EngineInfo {
                 rule: "generated structured Wasm programs (nested block/loop/if, br/br_if/br_table with and without carried values, direct and indirect calls, memory, globals, host calls at any depth) run under a simulated host; per program a reference run with every host call inline, then runs under seeded interrupt schedules (all / alternating / random bit vectors over the dynamic host-call ordinals), from the stored zero-copy and owned artifact, twice, and with another execution interleaved while suspended; non-trivial = at least one suspend/resume or writer fault fired, distinct by event-log fingerprint".into(),
                 explanation: "C13: event log (charges, host calls with arguments and memory length, call tracking), outcome (value / trap text / out of energy) and final memory+globals digest must be identical across all of these; re-serialising a loaded artifact is byte-identical; a failing writer makes storing fail".into(),
@@ -77,7 +101,46 @@ fn main() {
                 ],
             }
         }
-        "C15" => triesim::run_trie_batches(&mut ctx, "C15"),
+        "C14" => {
+            let vs = VScenario {
+                name:  "chain-host",
+                focus: v1sim::VFocus::Host,
+            };
+            let n = ctx.count(300_000, 10_000_000);
+            ctx.run_batch(&vs, n);
+            EngineInfo {
+                rule: "generated script contracts (straight-line sequences of v1 host calls with valid and hostile pointer / length / offset / handle arguments, re-entrant calls of the same instance that modify, only read, reject or trap, transfers, calls and queries answered by the chain stub as scripted, parameter sets P4-P7, initial state in memory or lazily loaded from the simulated disk) executed through v1::invoke_receive / resume_receive; energy exhaustion injected at seeded fractions of the energy the transaction needs; non-trivial = an interrupt, re-entry, rollback or energy cut happened, distinct by event-log fingerprint".into(),
+                explanation: "C14 (v1 interface): the invocation ends as success / reject / trap / out-of-energy (a panic or a bounds assertion is a violation); pointers or lengths outside memory trap; every result and every byte delivered to the contract, the return value, and the committed state and its hash equal the reference model of the host interface; budgets = used, used+17 change only the remainder; any smaller budget gives out-of-energy and leaves the original state untouched; fresh and stored artifact agree".into(),
+                time_unit: "interpreter energy consumed",
+                state_measure: "not used by this engine (0)",
+                fault_kinds: &["interrupt_resume", "reentry", "nested_failure_rollback", "energy_cut"],
+                probe_names: &["trap_outcome", "reject_outcome", "reference_out_of_energy", "state_loaded_lazily_from_disk", "ran_stored_artifact"],
+                real: vec!["concordium-smart-contract-engine v1 (invoke_receive, resume_receive, host functions, InstanceState, trie) and concordium-wasm from /repo's working tree"],
+                stub: vec![
+                    "chain scheduler (instance table, call stack, commit / rollback, state_updated, responses) = /verif stub; the real one is Haskell outside this repository",
+                    "secp256k1 (always fails), ed25519-zebra (over dalek), slab, num_enum: stub crates; signature host functions are not exercised",
+                ],
+                assumptions: vec![
+                    "v0 host functions, upgrade, signature checks and hashing host functions are NOT exercised by this check".into(),
+                    "the energy *amounts* are not compared with the cost schedule; only totality, monotonicity and the remainder".into(),
+                    "commit rule of the stub: a successful re-entrant call that reports state_changed replaces the caller's state and resumes it with state_updated = true".into(),
+                ],
+            }
+        }
+        "C15" => {
+            let mut info = triesim::run_trie_batches(&mut ctx, "C15");
+            let vs = VScenario {
+                name:  "chain-handles",
+                focus: v1sim::VFocus::Handles,
+            };
+            let n = ctx.count(300_000, 10_000_000);
+            ctx.run_batch(&vs, n);
+            info.rule = format!("{}; PLUS contract-visible half: script contracts that open iterators and look up / create entries, then invoke (re-entrant calls of the same instance that modify and succeed, modify and fail, or only read; transfers; calls of other contracts) and use the old handles and iterators afterwards", info.rule);
+            info.explanation = format!("{}; contract-visible: return codes of state_* host functions equal the reference model; after a resume with state_updated every old entry and iterator id is invalid and yields no data, without it they stay valid; locks of live iterators refuse create / delete / delete_prefix", info.explanation);
+            info.real.push("concordium-smart-contract-engine v1 (invoke_receive, resume_receive, InstanceState) from /repo's working tree");
+            info.stub.push("chain scheduler = /verif stub");
+            info
+        }
         other => {
             eprintln!("chainsim does not serve property {}", other);
             std::process::exit(2);
